@@ -11,3 +11,9 @@ add("C02", "model_checking",
     "Trusted: TLC, harness wire, copy/deepcopy snapshot of the read ConnectionState. Plaintext-epoch records are not attacked here (C04).",
     "TLA+ spec with adversary model-checked by TLC + TLC validation of attack traces replayed into real record layers",
     "tla-record")
+add("C06", "model_checking",
+    "HandshakeOrder.tla is the RFC message-order automaton (one state per _getMsg call site, per role x flavour). TLC checks that every honest sequence recorded from live handshakes (SSLv3-TLS1.3 x RSA/DHE/ECDHE/DSS/SRP/anon x client auth x tickets x NPN x HRR x resumption) is a word of it and enumerates ALL single deviations (skip/dup/swap/insert fabricated/replay earlier message; <=2 deviations by TLC simulation in thorough) with the verdict the property demands. Every emitted case is replayed against a live endpoint by a puppet peer whose transcript is consistent with what it sent, so an order bug shows as a completed handshake. Judged: completes only if admissible; no application data before a valid completion; own rejections are fatal alerts; no second handshake.",
+    "DESIGN.md section 5 C06, section 3.2, Appendix B.1",
+    "Trusted: TLC, puppet peer (send-side scripting at _sendMsg/_queue_message), stepping loop. Deviations limited to what a key-holding peer can send without receiving more from the EUT (swap within one flight).",
+    "TLA+ automaton + TLC-enumerated deviation scripts replayed into live handshakes (spec->code)",
+    "tla-handshake")
